@@ -43,3 +43,19 @@ package auth
 //@   ensures [paid] err == nil ==> (forall d Str :: amt(auth.bal[msg_signer(tx.Msg)], d) == amt(old(auth.bal[msg_signer(tx.Msg)]), d) - amt(tx.Fee, d) && amt(auth.bal[modaddr("fee_collector")], d) == amt(old(auth.bal[modaddr("fee_collector")]), d) + amt(tx.Fee, d))
 //@   ensures [refused] err != nil ==> auth.bal == old(auth.bal)
 //@   ensures auth.supply == old(auth.supply)
+
+// C03/C11: the ante handler itself (the function literal returned by NewAnteHandler): a transaction continues
+// (abort == false) only if ValidateTransaction accepted it and the fee was deducted; an aborted transaction has paid
+// nothing (no balance changed). `tx.ValidateBasic` and `GetParams` are opaque here.
+//@ func NewAnteHandler__1(ctx sdk.Ctx, tx sdk.Tx, txBz []byte, tmNode *node.Node, simulate bool) (newCtx sdk.Ctx, res sdk.Result, abort bool)
+//@   props C03 C11
+//@   uses bankinv
+//@   requires modreg("fee_collector")
+//@   requires dyntype(tx) == typeid("x/auth/types.StdTx") ==> msg_signer(unbox(tx, "x/auth/types.StdTx").Msg) != modaddr("fee_collector")   // no key hashes to a module address
+//@   modifies everything
+//@   keeps auth.
+//@   ensures [aborted-unpaid] abort ==> auth.bal == old(auth.bal) && auth.supply == old(auth.supply)
+//@   ensures [aborted-error] abort ==> res.Code != 0
+//@   ensures [accepted] !abort ==> dyntype(tx) == typeid("x/auth/types.StdTx") && !tx_in_index(tx_hash(txBz)) && amt(unbox(tx, "x/auth/types.StdTx").Fee, "upokt") >= msg_fee(unbox(tx, "x/auth/types.StdTx").Msg)
+//@   ensures [accepted-paid] !abort ==> (forall d Str :: amt(auth.bal[modaddr("fee_collector")], d) == amt(old(auth.bal[modaddr("fee_collector")]), d) + amt(unbox(tx, "x/auth/types.StdTx").Fee, d) && amt(auth.bal[msg_signer(unbox(tx, "x/auth/types.StdTx").Msg)], d) == amt(old(auth.bal[msg_signer(unbox(tx, "x/auth/types.StdTx").Msg)]), d) - amt(unbox(tx, "x/auth/types.StdTx").Fee, d))
+//@   ensures [supply] auth.supply == old(auth.supply)
